@@ -75,24 +75,26 @@ def parseApproxPosition (v : Values) (s : State) : Except Err State := do
   let z ← pyFloat (← getv v "pos_z")
   parseFloatFields v { s with data := { s.data with pos := some [x, y, z] } }
 
+/-- one `type_nn` field of a `SYS / # / OBS TYPES` line (the body of the loop of `_parse_sys_obs_types`) -/
+def sysObsStep (acc : Except Err State) (f : String × Str) : Except Err State := do
+  let st ← acc
+  if f.2 = [] then pure st else do
+    let lst ← req st.cache.obstypes
+    let sy ← req st.cache.sys
+    let lst' := lst ++ [f.2]
+    pure { st with
+      cache := { st.cache with obstypes := some lst' },
+      obstypesAll := if st.obstypesAll.contains f.2 then st.obstypesAll else st.obstypesAll ++ [f.2],
+      metaD := st.metaD.set [key "obstypes", sy] (.list lst'),
+      data := st.data.declareType f.2 }
+
 /-- `_parse_sys_obs_types` -/
 def parseSysObsTypes (v : Values) (s : State) : Except Err State := do
   let sysf ← getv v "satellite_sys"
   let d0 : Data := { s.data with hasObs := true }
   let m0 := s.metaD.setdefaultDict [key "obstypes"]
   let c0 : Cache := if sysf ≠ [] then { s.cache with sys := some sysf, obstypes := some [] } else s.cache
-  let step (acc : Except Err State) (f : String × Str) : Except Err State := do
-    let st ← acc
-    if f.2 = [] then pure st else do
-      let lst ← req st.cache.obstypes
-      let sy ← req st.cache.sys
-      let lst' := lst ++ [f.2]
-      pure { st with
-        cache := { st.cache with obstypes := some lst' },
-        obstypesAll := if st.obstypesAll.contains f.2 then st.obstypesAll else st.obstypesAll ++ [f.2],
-        metaD := st.metaD.set [key "obstypes", sy] (.list lst'),
-        data := st.data.declareType f.2 }
-  (fieldsWithPrefix v "type_").foldl step (pure { s with data := d0, metaD := m0, cache := c0 })
+  (fieldsWithPrefix v "type_").foldl sysObsStep (pure { s with data := d0, metaD := m0, cache := c0 })
 
 def timeString (v : Values) : Except Err Str := do
   let y ← pyInt (← getv v "year")
